@@ -42,7 +42,9 @@ type Evaluator struct {
 	Observe func(in ssa.Instruction, get func(ssa.Value) EVal)
 	// MaxPaths bounds the exploration.
 	MaxPaths int
-	paths    int
+	// MaxVisits bounds how often one path may re-enter a block (loop unrolling); default 2.
+	MaxVisits int
+	paths     int
 	Aborted  bool
 }
 
@@ -112,7 +114,11 @@ func (ev *Evaluator) runBlock(b, from *ssa.BasicBlock, env *evalEnv) {
 		return
 	}
 	env.visits[b]++
-	if env.visits[b] > 2 {
+	mv := ev.MaxVisits
+	if mv == 0 {
+		mv = 2
+	}
+	if env.visits[b] > mv {
 		return
 	}
 	get := func(v ssa.Value) EVal { return ev.get(env, v) }
